@@ -122,9 +122,12 @@ def run(ctx):
     ctx.cov["rule"] = ("scripts are random walks (TLC, spec/WrapGen.tla) through the grammar of well-matched joint "
                        "client/server scripts of spec/Wrap.tla: shapes unary, server-stream, client-stream, bidi and unary "
                        "through NewStream; 0..%d messages each way; SetHeader/SendHeader/SetTrailer, any status, half-close, "
-                       "cancel or deadline wherever the grammar allows (also before the first server message), after which a "
+                       "cancel or deadline (half of them on a context with a cause: WithCancelCause / WithTimeoutCause) wherever "
+                       "the grammar allows (also before the first server message), after which a "
                        "handler that has seen its context end may carry on with SetHeader/SendHeader/Send/SetTrailer while "
-                       "the client reads Header()/Trailer(); a blocked client op may stay pending over server steps; plus every refused call (unknown method/service, each wrong stream shape).  Each script runs "
+                       "the client reads Header()/Trailer(); the handler keeps writing to (and recycles) every metadata.MD it "
+                       "has handed over, the client writes to every MD it was handed; a blocked client op may stay pending "
+                       "over server steps; plus every refused call (unknown method/service, each wrong stream shape).  Each script runs "
                        "through the wrapper and through grpc over bufconn (order of the two ops of a step and small pauses "
                        "drawn from the seed).  non-trivial = a message, metadata, a non-OK status or a context end occurs; "
                        "distinct = distinct (shape, step sequence with all parameters)." % maxmsgs)
@@ -148,7 +151,8 @@ MANIFEST = {'engine': "spec/Wrap.tla + WrapMC/WrapGen/WrapTrace.tla (TLC) + harn
          'flushed, no dead end in the grammar) and generates thousands of random scripts for the five call '
          'shapes plus all calls that must be refused. The Go harness runs each script against one scripted '
          'TestApiServer twice, through wrap.ServerToClient and through a grpc.Server on bufconn, and also '
-         'checks message aliasing across the boundary and goroutines with pkg/wrap frames left after the call. '
+         'checks aliasing of messages and of header/trailer metadata across the boundary (both sides keep '
+         'writing to what they sent or were handed) and goroutines with pkg/wrap frames left after the call. '
          'TLC evaluates the TLA+ predicates on both transcripts: the real connection must be in the set (binds '
          'the model to the reference, otherwise inconclusive) and so must the wrapper (otherwise violation). '
          'Conformance on the generated scripts plus bounded model checking of the design; not a proof.',
